@@ -121,6 +121,15 @@ def check(run):
     run.extra['documents_satisfying_DocInv'] = inv_ok
     X.report_failures(run, 'C07', failing, oracle=c07_oracle)
     run.extra['wall_generate_evaluate_s'] = round(time.time() - t0, 1)
+    # node-sets on EDITED documents (shared dom campaign): document order and no duplicates must also
+    # hold after any edit history, with no other call between the edit and the query
+    try:
+        from . import domlib as D
+        for g in D.query_findings(run, ('query-order',)):
+            run.failing_inputs.append({'property': 'C07', 'class': 'edited-document-order', 'what': g['what'], 'docs': g['docs'], 'ops': g['ops'], 'view': g['view'], 'clause': g['clause']})
+    except Exception as ex:
+        run.notes.append('edited-document stream not run: %r' % (ex,))
+
     return run.finish(level='proof',
         rule='cases = (document, expression) with a node-set value; non-trivial = distinct (document, expression) whose result has >= 2 nodes; law cases = triples A,B,C with 10 probes each',
         assumptions=['the XDoc dump of the harness is the document the evaluator sees (every field is an observation through the public dom API)',
